@@ -1,6 +1,7 @@
 import Drv.Walk
 import FsutilModel.Model.SyncB
 import FsutilModel.Model.Filter
+import FsutilModel.Model.FollowLinks
 open Lean Fsm
 
 namespace Drv
@@ -32,17 +33,55 @@ def parseNotif (x : Json) : Except String BEv := do
   | "modify" => return .modify (← parseStat ((x.getObjVal? "stat").toOption.getD (jobj [("p", jhex p)]))).toEnt
   | _ => throw s!"notif kind {k}"
 
-def parseSFilter (j : Json) : Except String (Option F.Cfg) := do
+def viewToFL (full : List VEnt) : List FL.Ent :=
+  full.map fun v => ⟨v.st.path, v.st.isDir, if v.st.isSymlink then some v.st.linkname else none⟩
+
+/-- FilterOpt as NewFilterFS builds its matchers: FollowPaths are resolved against the unfiltered view and appended to the
+include patterns, then de-duplicated (filter.go) -/
+def parseSFilterWith (j : Json) (full : List VEnt) : Except String (Option F.Cfg) := do
   match j.getObjVal? "sfilter" with
   | .ok f =>
     let inc := (getHexArr f "include").toOption.getD []
     let exc := (getHexArr f "exclude").toOption.getD []
-    return some { inc := P.parsePatterns inc, exc := P.parsePatterns exc }
+    let inc' ← match getHexArr f "follow" with
+      | .ok paths =>
+        let l := viewToFL full
+        match FL.followLinks Fix.f4 l paths (8 * (l.length + 2) + 64) with
+        | some ts => pure ((FL.dedupePaths Fix.f4 (inc ++ ts)).getD (inc ++ ts))
+        | none => pure (if Fix.f25 then [] else inc)
+      | .error _ => pure inc
+    return some { inc := P.parsePatterns inc', exc := P.parsePatterns exc }
   | .error _ => return none
+
+def parseSFilter (j : Json) : Except String (Option F.Cfg) := parseSFilterWith j []
+
+/-- C18, last clause: every requested path (without wildcards) resolves in the transferred tree to the same location, entry kind
+and bytes as in the source -/
+def followResolves (full : List VEnt) (after : List Snap) (paths : List Path) : SpecVerdict := Id.run do
+  let ls := viewToFL full
+  let ld : List FL.Ent := after.map fun a => ⟨a.st.path, a.st.isDir, if a.st.isSymlink then some a.st.linkname else none⟩
+  for q in paths do
+    if q.any fun b => b == 42 || b == 63 || b == 91 then continue
+    let pc := clean (([47] : Path) ++ q)
+    let qq := joinSep ((comps pc).filter (· ≠ []))
+    let (_, fs) := FL.resolve ls qq
+    let (_, fd) := FL.resolve ld qq
+    match fs with
+    | none => continue            -- does not resolve in the source (cycle): nothing is demanded
+    | some f =>
+      if fd != some f then return ⟨false, "a requested path resolves to a different location in the transferred tree"⟩
+      match full.find? (·.st.path = f), after.find? (·.st.path = f) with
+      | some v, some a =>
+        if v.st.isDir != a.st.isDir || v.st.isSymlink != a.st.isSymlink then return ⟨false, "a requested path resolves to an entry of another kind"⟩
+        if v.st.canRequestData && v.st.linkname = [] && v.sha != a.sha then return ⟨false, "a requested path resolves to a file with other bytes"⟩
+      | some _, none => if f ≠ [] then return ⟨false, "the entry a requested path resolves to was not transferred"⟩
+      | none, some _ => return ⟨false, "a requested path resolves to an entry the source does not have"⟩
+      | none, none => pure ()
+  return ⟨true, ""⟩
 
 def hSync (j : Json) : Except String Json := do
   let full ← parseView j
-  let sf ← parseSFilter j
+  let sf ← parseSFilterWith j full
   let view := match sf with
     | some cfg => F.senderView Fix.f9 cfg full
     | none => F.senderView Fix.f9 { inc := [], exc := [] } full
@@ -56,6 +95,14 @@ def hSync (j : Json) : Except String Json := do
                   ("links_closed", toJson (F.linksClosed [] (view.map (·.st))))]
   out := out ++ verdictJ "c01" (specSync o before after view)
   out := out ++ verdictJ "untouched" (specUntouched o before after view)
+  match (j.getObjVal? "sfilter").toOption.bind (fun f => (getHexArr f "follow").toOption) with
+  | some paths =>
+    out := out ++ verdictJ "follow" (followResolves full after paths)
+    -- is the include set FollowLinks computed closed for these requests (C18 reference)? (known findings F12/F19 make it open)
+    let l := viewToFL full
+    let r := FL.followLinks Fix.f4 l paths (8 * (l.length + 2) + 64)
+    out := out ++ [("follow_spec", toJson (FL.specFollow l paths r).ok)]
+  | none => pure ()
   -- C05: the notifications the implementation made, judged by the listing-level spec
   match j.getObjVal? "notif" with
   | .ok (.arr ns) =>
